@@ -58,6 +58,7 @@ type Contract struct {
 	Lets       []LetDef
 	File       string
 	Line       int
+	Replay     *Expr // string-valued expression (pre-state): the input buffer for counterexample replay
 	Ghosts     []string
 	NoSafety   bool
 	AllocsNone bool
@@ -211,6 +212,12 @@ func (cs *ContractSet) line(cur **Contract, text, file string, ln int) error {
 		c.Props = strings.Fields(rest)
 	case "trusted":
 		c.Trusted = true
+	case "replay":
+		e, err := ParseExpr(rest)
+		if err != nil {
+			return err
+		}
+		c.Replay = e
 	case "nosafety":
 		c.NoSafety = true
 	case "requires", "ensures":
